@@ -21,6 +21,7 @@ CAUGHT = {
     "C13-m1": ["C13 quick (after the expansion side got independent list actions)"], "C13-m2": ["C13 quick (structural comparison of rule actions; results)"],
     "C13-m3": ["C13 quick (production flags; S: x* x under prefer-shifts)"],
     "C14-m1": ["C14 quick"], "C14-m2": ["C14 quick (after SLR variants were added)"],
+    "C14-m3": ["C14 quick (custom-ws unit: skip table differs from the character-set model; ws with a backslash rejected at construction)"],
     "C15-m1": ["C15 quick (FIRST/FOLLOW of the used grammar vs an untouched one)"], "C15-m2": ["C15 quick"],
     "C15-m3": ["C15 quick (actions keep a counter in context.extra)"],
     "C18-m1": ["C18 quick (unary-sign family with a marked EMPTY production)"], "C18-m2": ["C18 quick"],
